@@ -305,6 +305,10 @@ fn judge_a(case: &Case, l_: &mut Local) {
                                 l_.check("thickness of a constant-radius section equals twice the radius", "", (v - 2.0 * r0).abs() <= 2.0 * (tau + h), mk, || format!("{}: {} vs {}", tag, v, 2.0 * r0));
                             }
                         }
+                        if let (Ok(d), Some(te)) = (g.get_thickness(AfGage::Radius(-0.3 * cl)), &g.trailing_edge) {
+                            let ok = sec.dist_to_point(&d.a) <= 4.0 * tau && sec.dist_to_point(&d.b) <= 4.0 * tau && (d2(&d.a, &te.point) - 0.3 * cl).abs() <= 1e-6 * l && (d2(&d.b, &te.point) - 0.3 * cl).abs() <= 1e-6 * l;
+                            l_.check("negative radius gauge picks section points at the gauge radius from the trailing edge", "", ok, mk, || format!("{}: |a - te| = {}, |b - te| = {}, gauge {}", tag, d2(&d.a, &te.point), d2(&d.b, &te.point), 0.3 * cl));
+                        }
                         if let (Ok(d), Some(le)) = (g.get_thickness(AfGage::Radius(0.3 * cl)), &g.leading_edge) {
                             let ok = sec.dist_to_point(&d.a) <= 4.0 * tau && sec.dist_to_point(&d.b) <= 4.0 * tau && (d2(&d.a, &le.point) - 0.3 * cl).abs() <= 1e-6 * l && (d2(&d.b, &le.point) - 0.3 * cl).abs() <= 1e-6 * l;
                             l_.check("radius gauge picks section points at the gauge radius from the leading edge", "", ok, mk, || tag.clone());
